@@ -15,6 +15,10 @@ def op_insert():
     return st.tuples(st.just("insert"), gen.points(), st.integers(0, 3), st.booleans() | st.just(True), st.sampled_from(["db", "db", "db_meas", "handle", "old_handle"]), st.booleans()).map(list)
 
 
+def op_insert_stamped():
+    return st.tuples(st.just("insert_stamped"), gen.points(), st.integers(1, 3), st.sampled_from(["db", "db", "db_meas", "handle"]), st.sampled_from([False, False, False, True])).map(list)
+
+
 def op_insert_multiple(bad=False):
     return st.tuples(
         st.just("insert_multiple"), st.lists(gen.points(), min_size=0 if not bad else 1, max_size=6), st.integers(0, 3), st.sampled_from(["inorder", "inorder", "asis"]),
@@ -131,6 +135,56 @@ def op_probe():
     return st.tuples(st.just("probe"), gen.queries(3), gen.meas_filter(), st.sampled_from(SELECT_KEYS), st.sampled_from(VIAS_M)).map(list)
 
 
+NEAR = {
+    "field": {-1: [-2, -1.5], -2: [-1], 1: [1.0, 2, True], 2: [2.0, 1], 0: [-0.0, 1], 2.0: [2, 1], -1.5: [-1], None: [0]},
+    "tag": {"x": ["X", "xy"], "X": ["x"], "xy": ["x", "x\ny"], "": [None], None: [""], "a,b": ["x"], "x\ny": ["xy"]},
+    "meas": {"m1": ["M1", "m2"], "m2": ["m1"], "_default": ["m1"], "a,b": ["m1"], "mé": ["m1"], "": ["m1"], "M1": ["m1"]},
+}
+
+
+def near_variant(draw, q):
+    """q with one leaf changed to a near-miss (neighbouring right-hand side, other operator, other regex flag)."""
+    if q[0] != "leaf":
+        i = draw(st.integers(1, len(q) - 1))
+        return q[:i] + [near_variant(draw, q[i])] + q[i + 1:]
+    _, attr, path, test = q
+    t = list(test)
+    if t[0] == "cmp":
+        if draw(st.integers(0, 3)) == 0:
+            t[1] = draw(st.sampled_from([o for o in ["==", "!=", "<", "<=", ">", ">="] if o != t[1]]))
+        elif attr == "time" and hasattr(t[2], "isoformat"):
+            from datetime import timedelta
+
+            t[2] = t[2] + timedelta(microseconds=draw(st.sampled_from([-1, 1])))
+        else:
+            opts = NEAR.get(attr, {}).get(t[2] if not isinstance(t[2], bool) else None)
+            if opts and not any(part[0] == "map" for part in path):
+                t[2] = draw(st.sampled_from(opts))
+            else:
+                t[1] = {"==": "!=", "!=": "==", "<": "<=", "<=": "<", ">": ">=", ">=": ">"}[t[1]]
+    elif t[0] in ("matches", "search"):
+        t[2] = draw(st.sampled_from([f for f in gen.REFLAGS if f != t[2]]))
+    elif t[0] == "exists":
+        other = [k for k in (gen.TKEYS if attr == "tag" else gen.FKEYS) if ["key", k] != path[0]]
+        return ["leaf", attr, [["key", draw(st.sampled_from(other))]] + list(path[1:]), t]
+    else:
+        return ["not", q]
+    return ["leaf", attr, path, t]
+
+
+@st.composite
+def simple_cmp_leaf(draw):
+    attr = draw(st.sampled_from(["field", "field", "tag", "meas"]))
+    path = [] if attr == "meas" else [["key", draw(st.sampled_from(gen.W_FKEYS if attr == "field" else gen.W_TKEYS))]]
+    return ["leaf", attr, path, ["cmp", draw(st.sampled_from(["==", "!=", "<", "<=", ">", ">="])), draw(st.sampled_from(sorted(NEAR[attr], key=repr)))]]
+
+
+@st.composite
+def op_probe_twin(draw):
+    q = draw(st.one_of(gen.queries(2), simple_cmp_leaf(), simple_cmp_leaf()))
+    return ["probe_twin", q, near_variant(draw, q), draw(gen.meas_filter()), draw(st.sampled_from(SELECT_KEYS)), draw(st.sampled_from(VIAS_M))]
+
+
 def op_getters():
     tk = st.sampled_from([[], [], ["a"], ["a", "b"], ["zz"], ["a", "a"], ["t x", "zz"]])
     return st.tuples(st.just("getters"), gen.meas_filter(), tk, st.sampled_from(gen.FKEYS + ["zz"]), st.sampled_from(VIAS_M)).map(list)
@@ -164,7 +218,8 @@ def history(profile, max_ops=30, min_ops=1):
         "bad_insert": op_bad_insert(), "bad_read": op_bad_read(), "reindex": op_reindex(), "reopen": op_reopen(), "probe": op_probe(), "getters": op_getters(),
     }
     # half of the query-carrying operations derive (part of) their query from a stored point, so that they hit
-    table["probe"] = st.one_of(op_probe(), op_probe_hit())
+    table["probe"] = st.one_of(op_probe(), op_probe_hit(), op_probe_hit(), op_probe_twin())
+    table["insert"] = st.one_of(op_insert(), op_insert(), op_insert(), op_insert(), op_insert_stamped())
     table["remove"] = st.one_of(op_remove(), op_remove_hit(), op_remove_hit())
     table["update"] = st.one_of(op_update(), op_update_hit(), op_update_hit())
     table["fault_update"] = st.one_of(op_update(True), op_update_hit(True), op_update_hit(True))
